@@ -9322,7 +9322,9 @@ class SVG(Group):
                         else:
                             values[SVG_ATTR_TRANSFORM] = viewport_transform
                         values["viewport_transform"] = values[SVG_ATTR_TRANSFORM]
-                        width, height = s.viewbox.width, s.viewbox.height
+                        if s.viewbox.width is not None and s.viewbox.height is not None:
+                            # A malformed viewBox establishes no user space: the viewport size stays in force.
+                            width, height = s.viewbox.width, s.viewbox.height
                     elif context is not None and (s.x != 0 or s.y != 0):
                         # A nested svg without a viewBox still places its viewport at x, y.
                         viewport_transform = "translate(%s, %s)" % (
